@@ -20,7 +20,9 @@ REQUIRED = ['treeOK_of_disciplined', 'tree_discipline', 'run_discipline', 'leaf_
             'trenchBlock_disciplined', 'blocksFrom_disciplined', 'farcallBody_disciplined', 'farcallBody_pre', 'farcallFile_disciplined',
             'shipped_headers_disciplined', 'loops_wallLoop', 'farcallBody_loops', 'matchWallLoop_body', 'matchWallLoop_bodyD',
             'bedBlock_disciplined', 'bedsFrom_disciplined', 'leafLine_xy', 'leafFile_isLeafXY',
-            'sessionWith_ok', 'farcallBody_ok', 'farcallFile_ok']
+            'sessionWith_ok', 'farcallBody_ok', 'farcallFile_ok',
+            'calm_step', 'sem_load', 'sem_moveTo', 'sem_setVar', 'wallLoop_out', 'sem_wallLoop', 'trenchBlock_split', 'wallPrefix_inv',
+            'wallPrefix_ready', 'wallPart_depth', 'transform_z', 'depth_rounding', 'pass_depth_error']
 RULE = ('1..3 trench columns (or U-trench columns with 0..2 pillars) are dug with the real API from layouts of straight / tilted / S-bent '
         'guides (some leaving a neck that splits when inset), with random box counts, box height, z offset <= 0, deltaz, floor spacing, '
         'speeds, power-axis settings and base folders, and exported by the real TrenchWriter / UTrenchWriter.pgm() under random compiler '
@@ -57,7 +59,11 @@ CLAIM = {
             'generated tree; theorems for every column / configuration: farcallFile_disciplined (the whole call file passes the static check: '
             'x/y motion only closed, shutter open exactly across the wall loop, the floor call and the bed calls), farcallBody_loops (its only '
             'loops are wall loops of n_repeat turns with increment fmt6(deltaz/neff) — the shape of wall_loop_depths), leafFile_isLeafXY (what '
-            'export_array2d writes is an x/y-only leaf). Leaf tool-paths inside the footprints: measured.',
+            'export_array2d writes is an x/y-only leaf), farcallFile_ok (balanced loops, reported dwell = executed dwell), and the chain from '
+            'the compiler to the depth of every pass: wallPrefix_inv / sem_wallLoop / wallPart_depth (a Hoare logic over compile steps run by '
+            'the tree controller: for 6-digit output the block prefix of the model file brings the controller to the ready state at '
+            'z0 = fmt6((L*h_box + z_off)/neff) with the wall program bound to its leaf, k turns of the loop leave it at z0 + k*fmt6(deltaz/neff)) '
+            'and pass_depth_error (that depth is within (k+1)*5e-7 of the exact schedule depth). Leaf tool-paths inside the footprints: measured.',
     'note': 'PARTIAL: footprint containment of wall/floor/bed paths is sampled (shapely); it fails today for floor joins of blocks '
             'that split or stay concave (finding F9). Trusted: Lean kernel/Mathlib; Spec/Tree.lean (hand-written controller) run on the real files.',
     'technique': 'Lean 4 proof (soundness of a static shutter analysis for a tree interpreter; discipline and loop shape of the compile-side model of the emitting code by composition over compiler steps; rational arithmetic) + instruction-level correspondence of every exported file with the model + translation validation of the real tree; footprints sampled (partial)',
